@@ -180,6 +180,16 @@ bool libcall(const std::function<void()> &f) {
     sim_abort_armed = 0;
     return true;
 }
+bool guardcall(const std::function<void()> &f) {
+    volatile int saved = sim_in_lib;
+    sim_abort_armed = 1;
+    if(setjmp(sim_abort_jmp)) { sim_in_lib = saved; sim_abort_armed = 0; return false; }
+    sim_in_lib = 0;
+    f();
+    sim_in_lib = saved;
+    sim_abort_armed = 0;
+    return true;
+}
 std::string abort_site() {
     return std::string(sim_abort_last.file) + ":" + sim_abort_last.func + ":\"" + sim_abort_last.expr + "\"";
 }
